@@ -21,12 +21,31 @@ class Ref(object):
 
 
 def make_reference(rng, work, n_levels=None, n_leaves=None, n_genes=None,
-                   cells_per_leaf=(4, 10), encoding='csr', name='ref'):
-    """labelled raw-count reference with separable clusters"""
+                   cells_per_leaf=(4, 10), encoding='csr', name='ref',
+                   rich=False):
+    """
+    labelled raw-count reference with separable clusters; rich=True: the
+    root and at least one node of every other non-leaf level have two or
+    more children (so that every stage has a real choice at every level)
+    """
     work = pathlib.Path(work)
     d = int(n_levels if n_levels is not None else rng.integers(2, 4))
     k = int(n_leaves if n_leaves is not None else rng.integers(5, 8))
     forest = gen.random_forest(rng, d, k)
+    if rich and k >= d:
+        def is_rich(f):
+            level = [f]           # child lists of the nodes of one level
+            for _ in range(d):
+                if not any(len(kids) >= 2 for kids in level):
+                    return False
+                level = [t for kids in level for t in kids if t != ()]
+                if not level:
+                    break
+            return True
+        for _ in range(200):
+            if is_rich(forest):
+                break
+            forest = gen.random_forest(rng, d, k)
     model = gen.build_from_shape(
         forest, d, rng, level_pool=['class', 'subclass', 'cluster', 'sub'],
         share_names=False)
